@@ -86,6 +86,17 @@ class C09(C06):
                 return "request %s: error lists differ between isolation settings" % rq.split(":")[0]
         return None
 
+    def predicate2(self, case, impl_obs, model_obs):
+        """placement of the marks: the reference semantics (ResolverSpec, evaluated next to the model) writes a
+        pair exactly around each placeable of a multi-element pattern whose expression is not a message/term
+        reference or a string literal, and none for single-element patterns; the implementation's text with
+        isolation on must be that text, mark for mark"""
+        from .c07 import C07
+        why = C07.predicate2(self, case, impl_obs, model_obs)
+        if why and "differs from the Fluent semantics" in why:
+            return why.replace("differs from the Fluent semantics", "places FSI/PDI differently from the isolation rule (reference semantics)")
+        return why
+
     def matches_known(self, k, case, impl_obs, why):
         """F15: a select whose selector value flows through a multi-element pattern (term attribute / reference passed
         through a function) compares the isolated string"""
